@@ -156,6 +156,31 @@ def builtin_cases():
     return cases
 
 
+VARIABLE_ROUNDS = [{'lang': 'fr', 'charset': 'koi8-r', 'locale': 'fr-FR', 'indentation': '  '},
+                   {'lang': 'de', 'charset': 'latin1', 'who': 'second'},
+                   {'who': 'third'}]
+
+
+def variable_round_cases():
+    """The same aliases again under DIFFERENT `variables`, later in the same process: a snippet definition may
+    use ${variable}; alias and definition-in-place must agree under every configuration, whatever was expanded
+    before (variables are substituted when a definition is parsed)."""
+    from emmet.snippets import markup_snippets
+    cases = []
+    user = {'vv': 'p[title=${who}]{${who} ${lang}}', 'ww': 'vv>b{${charset}}', 'xx': 'ww+vv'}
+    for rnd, variables in enumerate(VARIABLE_ROUNDS):
+        for k, d in list(markup_snippets.items()) + list(user.items()):
+            if '${' not in d and not any(r in d for r in ('doc', 'meta', 'vv', 'ww', '!!!')):
+                continue
+            cfg = {'variables': dict(variables)}
+            if k in user:
+                cfg['snippets'] = dict(user)
+            for kind, a, b in su.alias_pairs(k, d, False):
+                if kind in ('alone', 'child'):
+                    cases.append({'kind': 'variables-round%d:%s' % (rnd, kind), 'a': a, 'b': b, 'config': cfg, 'equal': True, 'bound': None})
+    return cases
+
+
 def multikey_check(ctx):
     """parse_snippets: every name of a `a|b|c` key maps to that key's definition."""
     import emmet.snippets as S
@@ -256,6 +281,7 @@ def run(ctx):
     n_corpus = len(cases)
     cases += builtin_cases()
     cases += user_cases(ctx, 400 if ctx.tier == 'quick' else 6000)
+    cases += variable_round_cases()
     wires, idx, impl = [], [], []
     maxdepth = 0
     timeouts = 0
